@@ -160,6 +160,24 @@ def check_id_arithmetic(rep):
                 rep.step()
                 if len(set(bg[: m + 1].tolist())) != m + 1 or bg[-1] in bg[: m + 1].tolist():
                     rep.violation("id-arithmetic:bg_id-collides-across-fg", {"fg_id": fg, "self_sufficient_child": young}, f"bg ids {bg.tolist()}")
+    # many unrelated families, each with one or two self-sufficient children: ids of different families must stay apart however many
+    # such children the table holds (a table-wide counter collides at the 100th)
+    for nfam in list(range(1, 130)) + [150, 200, 250, 300]:
+        for kids in (1, 2):
+            fg, young = [], []
+            for k in range(nfam):
+                fg += [k] * (1 + kids)
+                young += [False] + [True] * kids
+            alter = np.array([18 if y else 45 for y in young])
+            bg = G.bg_id_numpy(np.array(fg), alter, np.array(young))
+            rep.state(("bg-many-families", nfam, kids))
+            rep.step()
+            if len(set(bg.tolist())) != len(fg):
+                seen = {}
+                clash = next((i, seen[b]) for i, b in enumerate(bg.tolist()) if b in seen or seen.setdefault(b, i) != i)
+                rep.violation("id-arithmetic:bg_id-collides-across-fg", {"families": nfam, "self_sufficient_children_per_family": kids, "rows": list(clash)},
+                              f"with {nfam} families the persons in rows {clash} (family units {fg[clash[0]]} and {fg[clash[1]]}) share bg_id {bg[clash[0]]}")
+                break
     hhs = [0, 1, 2, 3, 99, 100, 101, 10000]
     for n in (2, 3):
         for hh in itertools.product(hhs, repeat=n):
